@@ -50,12 +50,10 @@ impl<F: Finalizable> FinalizableProcessor<F> {
     ) {
         let start = if nursery { self.nursery_index } else { 0 };
 
-        // We should go through ready_for_finalize objects and keep them alive.
-        // Unlike candidates, those objects are known to be alive. This means
-        // theoratically we could do the following loop at any time in a GC (not necessarily after closure phase).
-        // But we have to iterate through candidates after closure.
-        self.candidates.append(&mut self.ready_for_finalize);
-        debug_assert!(self.ready_for_finalize.is_empty());
+        // Objects that are already in ready_for_finalize stay there until the binding pops them:
+        // they were found unreachable by an earlier GC. They must not be examined again, because
+        // `is_live()` may say yes for them now (e.g. a mature object in a nursery GC), which would
+        // silently move them back to the candidates. `forward_finalizable` below keeps them alive.
 
         for mut f in self.candidates.drain(start..).collect::<Vec<F>>() {
             let reff = f.get_reference();
